@@ -9,7 +9,9 @@ Direct oracle (= the statement, on the REAL validator):
   * one labelled violation of specification rule R (gen/violations.py)         => >= 1 error, one of
     them held by the visitor INSTANCE of R (chain rebuilt exactly as `default_validator` does;
     no message text is read)
-  * the verdict does not depend on documents validated earlier in the process (history pass)
+  * the verdict does not depend on documents validated earlier in the process (history pass), and a schema DERIVED
+    (clone / visibility transform / camel case) from a schema already used for validation validates like the same
+    derived schema built from its SDL (schema history pass)
   * verdict unchanged under: reorder definitions / selections / arguments, injective renaming of
     aliases / fragments / variables, re-spelling of whitespace, commas, comments.
 Correspondence (Lean model `PyGqlModel/Validate/*`, driver `drv_C06`): see `C06_model.py`.
@@ -17,14 +19,15 @@ Correspondence (Lean model `PyGqlModel/Validate/*`, driver `drv_C06`): see `C06_
 import ast as pyast
 import json
 import random
+import time
 
 from common import REPO, CORPUS
 
 PROPERTY = "C06"
 RULE = ("schemas: gen/schema.py (sizes 1-3, + subscription root); documents valid by construction (operations, nested "
         "fragments, inline fragments, variables shared between operations through fragments, directives, input objects, "
-        "mergeable duplicate fields); each then gets every applicable one of 35 labelled single-rule violations "
-        "(26 rule visitors / 26 specification rules) and 7 metamorphic transformations; non-trivial = distinct "
+        "mergeable duplicate fields); each then gets every applicable one of 37 labelled single-rule violations "
+        "(26 rule visitors / 26 specification rules) and 8 metamorphic transformations; non-trivial = distinct "
         "(document text) that is either valid with >= 2 definitions or a fragment, or carries a violation")
 ASSUMPTIONS = [
     "documents are produced by the real parser from generated text (validate_ast assumes parser output)",
@@ -242,8 +245,9 @@ def one_document(ctx, world, size, collect):
         return
     # ---- single labelled violations ----
     injected = []
-    for label, section, expected, fn in vi.INJECTORS:
-        if ctx.tier == "quick" and ctx.out_of_time():
+    for label, section, expected, fn in rng.sample(vi.INJECTORS, len(vi.INJECTORS)):
+        if time.time() > getattr(ctx, "direct_deadline", ctx.deadline):
+            ctx.stat("injectors-cut-short(time)")
             break
         r = fn(rng, world.sv, doc)
         if r is None:
@@ -274,7 +278,10 @@ def one_document(ctx, world, size, collect):
         ctx.stat("reported-by-%d-rules" % min(len(reporting(res)), 4))
         # invariance of the (invalid) verdict: two random transformations + the ones that matter for the rule
         names = [n for n, _ in vo.TRANSFORMS] + ["respell"]
-        check_transforms(ctx, world, doc2, res, label, which=rng.sample(names, 2 if ctx.tier == "quick" else 4), feature=feature)
+        which = rng.sample(names, 2 if ctx.tier == "quick" else 4)
+        if label == "all_variable_usages_allowed" or "fragment" in label:
+            which = sorted(set(which) | {"reverse_definitions", "reorder_definitions"})
+        check_transforms(ctx, world, doc2, res, label, which=which, feature=feature)
     # ---- two violations: verdict only ----
     if len(injected) >= 2:
         (l1, f1, d1, _), (l2, f2, _, fn2) = rng.sample(injected, 2)
@@ -364,17 +371,27 @@ def run(ctx):
     run_corpus(ctx, collect)
     n_worlds = ctx.n(8, 40)
     docs_per_world = ctx.n(3, 6)
-    budget = 22 if ctx.tier == "quick" else 240
+    budget = 17 if ctx.tier == "quick" else 220
+    ctx.direct_deadline = time.time() + budget
     for i in range(n_worlds):
-        if ctx.time_left() < (60 - budget if ctx.tier == "quick" else 600 - budget):
+        if time.time() > ctx.direct_deadline:
             ctx.notes.append("direct oracle stopped after %d schemas (time)" % i)
             break
         size = 1 + i % 3
         world = World(ctx.rng, size)
         ctx.stat("schema-size=%d" % size)
         for _ in range(docs_per_world):
+            if time.time() > ctx.direct_deadline:
+                break
             one_document(ctx, world, 1 + ctx.rng.randint(0, 2), collect)
+    import time as _t
+    t1 = _t.time()
     history_pass(ctx, collect)
+    t2 = _t.time()
+    schema_history_pass(ctx, collect)
+    t3 = _t.time()
+    ctx.extra["phase_seconds"] = {"corpus+direct_oracle": round(t1 - ctx.t0, 1), "history_pass": round(t2 - t1, 1),
+                                  "schema_history_pass": round(t3 - t2, 1)}
     try:
         from corr import C06_model
     except ImportError:
@@ -406,7 +423,7 @@ def history_pass(ctx, collect):
     cap = ctx.n(100, 700)
     hist_ok = set()
     for k, (world, text, first, label, feature) in enumerate(items[:cap]):
-        if ctx.tier == "quick" and ctx.time_left() < 18:
+        if ctx.tier == "quick" and ctx.time_left() < 28:
             ctx.notes.append("history pass stopped after %d documents (time)" % k)
             break
         with_history = k % 2 == 0
@@ -434,6 +451,102 @@ def history_pass(ctx, collect):
                       "again_rules": reporting(again), "label": label, "feature": feature})
 
 
+# ---------------------------------------------------------------------------
+# schema histories: a DERIVED schema (clone / visibility transform / camel case) of a schema that has already
+# been used for validation must validate like the same derived schema built from scratch
+# ---------------------------------------------------------------------------
+
+def derive(schema, how):
+    from py_gql.schema.transforms import CamelCaseSchemaTransform, VisibilitySchemaTransform, transform_schema
+    kind = how["kind"]
+    if kind == "clone":
+        return schema.clone()
+    if kind == "camel":
+        return transform_schema(schema, CamelCaseSchemaTransform())
+    hidden_fields = {tuple(x) for x in how.get("fields", [])}
+    hidden_types = set(how.get("types", []))
+
+    class Hide(VisibilitySchemaTransform):
+        def is_field_visible(self, typename, fieldname):
+            return (typename, fieldname) not in hidden_fields
+
+        def is_type_visible(self, name):
+            return name not in hidden_types
+    return transform_schema(schema, Hide())
+
+
+def derivations(rng, world, texts):
+    """clone, camel case, and visibility transforms hiding a field / a type that the documents of the run use"""
+    import re
+    out = [{"kind": "clone"}, {"kind": "camel"}]
+    used = set(re.findall(r"[A-Za-z_][A-Za-z_0-9]*", " ".join(texts)))
+    fields = [(t["name"], f["name"]) for t in world.desc["types"] if t["kind"] in ("object", "interface")
+              for f in t["fields"]]
+    fields = [x for x in fields if not (x[0] == "Query" and sum(1 for y in fields if y[0] == "Query") <= 1)]
+    rng.shuffle(fields)
+    pick = [x for x in fields if x[1] in used][:1] or fields[:1]
+    if pick:
+        # an interface field must be hidden on the implementers too, and the other way round
+        name = pick[0][1]
+        out.append({"kind": "hide", "fields": [list(x) for x in fields if x[1] == name], "types": []})
+    members = [m for t in world.desc["types"] if t["kind"] == "union" and len(t["members"]) >= 2 for m in t["members"]]
+    if members:
+        out.append({"kind": "hide", "fields": [], "types": [rng.choice(members)]})
+    return out
+
+
+def compare_on_derived(ctx, world_sdl, source_schema, how, texts, history):
+    """(#compared) - failures are recorded on ctx"""
+    from py_gql import build_schema
+    try:
+        derived = derive(source_schema, how)
+        rebuilt = build_schema(derived.to_string())
+    except Exception as e:  # a transform that makes the schema invalid, or an SDL round trip problem (C11/C12/C14)
+        ctx.stat("schema-history:skipped:%s:%s" % (how["kind"], type(e).__name__))
+        return 0
+    n = 0
+    for text in texts:
+        a = real_chain(derived, text)
+        b = real_chain(rebuilt, text)
+        n += 1
+        ctx.count()
+        ctx.stat("schema-history:%s:%s" % (how["kind"], a["outcome"].split(":")[0]))
+        if a["outcome"] != b["outcome"] or reporting(a) != reporting(b):
+            diff = sorted(set(reporting(a)) ^ set(reporting(b)))
+            ctx.fail("derived-schema-differs:%s:%s" % (how["kind"] + ("-type" if how.get("types") else "-field" if how.get("fields") else ""),
+                                                        "+".join(diff) or a["outcome"] + "/" + b["outcome"]),
+                     "a schema derived from a schema that was already used for validation validates differently from the "
+                     "same derived schema built from its SDL",
+                     {"kind": "schema-history", "sdl": world_sdl, "derivation": how, "history": history[:40], "text": text,
+                      "derived": a["outcome"], "derived_rules": reporting(a), "rebuilt": b["outcome"],
+                      "rebuilt_rules": reporting(b)})
+    return n
+
+
+def schema_history_pass(ctx, collect):
+    groups = {}
+    for it in collect:
+        if isinstance(it[0], World) and it[2]["outcome"] in ("ok", "errors"):
+            groups.setdefault(id(it[0]), []).append(it)
+    worlds = list(groups.values())
+    ctx.rng.shuffle(worlds)
+    for k, items in enumerate(worlds[:ctx.n(2, 12)]):
+        if ctx.tier == "quick" and ctx.time_left() < 22:
+            ctx.notes.append("schema history pass stopped after %d schemas (time)" % k)
+            break
+        world = items[0][0]
+        texts = [it[1] for it in items]
+        sample = [it[1] for it in items if it[3] == "valid"][:4] + ctx.rng.sample(texts, min(len(texts), ctx.n(8, 20)))
+        for how in derivations(ctx.rng, world, texts):
+            if how["kind"] == "hide":
+                names = {f[1] for f in how["fields"]} | set(how["types"])
+                hit = [t for t in texts if any(n in t.split() for n in names)][:6]
+                cases = hit + sample[:6]
+            else:
+                cases = sample
+            compare_on_derived(ctx, world.sdl, world.schema, how, cases, texts)
+
+
 def replay(ctx, data):
     from py_gql import build_schema
     inp = data.get("input", {})
@@ -450,6 +563,14 @@ def replay(ctx, data):
             return res["outcome"] != "ok"
         exp = inp.get("expected_rules") or []
         return (not exp) or bool(set(exp) & set(reporting(res)))
+    if kind == "schema-history":
+        for h in inp.get("history", []):
+            real_chain(schema, h)
+        from py_gql import build_schema as _bs
+        derived = derive(schema, inp["derivation"])
+        rebuilt = _bs(derived.to_string())
+        a, b = real_chain(derived, inp["text"]), real_chain(rebuilt, inp["text"])
+        return a["outcome"] == b["outcome"] and reporting(a) == reporting(b)
     if kind == "history":
         # fresh process: isolated validation first, then the recorded history (or the document itself twice), then again
         a = real_chain(schema, inp["text"])
